@@ -54,7 +54,10 @@ class ValueOracle(object):
     return R.scale(lambda x: self.m.value(self.node, x, r), r)
 
   def mag(self, r):
-    return self.m.mag(self.node, r)
+    try:
+      return self.m.mag(self.node, r)
+    except RefDomainError:
+      return mpf("inf")     # no magnitude bound exists at this point (e.g. ill-conditioned exponential spline): not judged
 
   def underflows(self, r):
     """Some intermediate of the evaluation at r lies in the range doubles flush to zero."""
@@ -68,7 +71,7 @@ class ValueOracle(object):
     r = F(r)
     # terms of the n-th derivative of r^-12-like or exp(-r/0.1)-like pieces are up to (16/min(r,1))^n times the value terms
     rr = 16 * max(1 / max(abs(r), mpf("1e-6")), mpf(1))
-    return self.m.mag(self.node, r) * rr ** n
+    return self.mag(r) * rr ** n
 
   def dscale(self, r, n=1):
     """Magnitude used to scale the tolerance of an n-th derivative."""
@@ -227,6 +230,9 @@ def check_token(ctx, kind, tok, ref, sc, rel=1e-9, abs_=0.0, where=None, quantum
     ctx.violation(kind, "not a number: %r at %s" % (tok, where), what=kind, mech="format")
     return False
   q = R.token_quantum(tok) if quantum is None else quantum
+  if mag == mpf("inf"):
+    ctx.count("out_of_domain_points")
+    return True
   if obs != obs or obs in (float("inf"), float("-inf")):
     ok = False
     diff = tol = float("nan")
